@@ -45,6 +45,17 @@ func baseName(name, epoch string) string { return name + "@" + epoch }
 var stableComp = func(name string) bool { return false }
 
 func (s *State) get(name string) Term {
+	t := s.get0(name)
+	if rec := s.c.getRec; rec != nil {
+		if prev, ok := rec[name]; ok && prev != t {
+			s.c.getRecBad = true // the same component read from two different states (old()): no footprint
+		}
+		rec[name] = t
+	}
+	return t
+}
+
+func (s *State) get0(name string) Term {
 	if t, ok := s.comps[name]; ok {
 		return t
 	}
@@ -61,12 +72,12 @@ func (s *State) get(name string) Term {
 		}
 		t = s.c.declareNamed(baseName(name, ep), sort)
 	case 1:
-		t = s.parents[0].st.get(name)
+		t = s.parents[0].st.get0(name)
 	default:
 		vals := make([]Term, len(s.parents))
 		same := true
 		for i, p := range s.parents {
-			vals[i] = p.st.get(name)
+			vals[i] = p.st.get0(name)
 			if vals[i] != vals[0] {
 				same = false
 			}
